@@ -39,11 +39,12 @@ def check_condmerge(chk, quick):
     for i, c in enumerate(cases):
         mask = c["mask"] if isinstance(c["mask"], list) else [c["mask"][str(k)] for k in range(1, c["n"] + 1)]
         out = c["out"] if isinstance(c["out"], list) else [c["out"][str(k)] for k in sorted(map(int, c["out"]))]
-        scs.append({"id": "cm-%05d" % i, "n": c["n"], "mask": mask, "out": out, "dev": c["dev"], "case": c})
+        scs.append({"id": "cm-%05d" % i, "n": c["n"], "mask": mask, "out": out, "dev": c["dev"], "cond_err_at": c["ce"],
+                    "case": c})
     traces = vlib.run_harness("condmerge", scs, name="condmerge")
     compared = 0
     for sc, tr in zip(scs, traces):
-        feats = ["cond", "dev%d" % sc["dev"], "kept%d" % sum(sc["mask"])]
+        feats = ["cond", "dev%d" % sc["dev"], "kept%d" % len(sc["out"])] + (["cond-err"] if sc["cond_err_at"] else [])
         rec = None
         if any(e["ev"] == "Panic" for e in tr):
             p = next(e for e in tr if e["ev"] == "Panic")
@@ -55,26 +56,21 @@ def check_condmerge(chk, quick):
             compared += 1
             n, mask, dev = sc["n"], sc["mask"], sc["dev"]
             exp = sc["case"]["expected"]
-            ok = True
-            if dev in (0, 2):
-                ok = len(res) == len(exp)
-                for k in range(min(len(res), len(exp))):
-                    ek, ei = exp[k][0], exp[k][1]
-                    ok = ok and res[k][0] == ek
-                    if ek == "single" and len(exp) == n:
-                        ok = ok and res[k][1] == ei and res[k][2] == mask[k]
-            else:
-                # one result short: no panic (checked above); what is returned must still be aligned:
-                # a single result at place k is record k itself, modified iff it matched
-                if len(res) == 1 and res[0][0] == "error":
-                    ok = True
-                else:
-                    for k, x in enumerate(res):
-                        if x[0] == "single":
-                            ok = ok and k < n and x[1] == k + 1 and x[2] == mask[k]
+            if isinstance(exp, dict):
+                exp = [exp[str(k)] for k in sorted(map(int, exp))]
+            # the specification's expectation is exact: same length, same kind at every place, and a single
+            # result is the record of that place itself, modified iff it was handed to the plugin
+            ok = len(res) == len(exp)
+            for k in range(min(len(res), len(exp))):
+                ek, ei = exp[k][0], exp[k][1]
+                ok = ok and res[k][0] == ek
+                if ek == "single":
+                    kept = mask[k] and (sc["cond_err_at"] == 0 or k + 1 < sc["cond_err_at"])
+                    ok = ok and res[k][1] == ei and res[k][2] == kept
             if not ok:
                 rec = {"invariant": "CondAligned", "engine": "processor", "features": feats,
-                       "what": {"expected": exp, "observed": res, "mask": mask, "out": sc["out"], "dev": dev}}
+                       "what": {"expected": exp, "observed": res, "mask": mask, "out": sc["out"], "dev": dev,
+                                "cond_err_at": sc["cond_err_at"]}}
         if rec:
             rec["scenario"] = sc["id"]
             chk.verdict.add(rec, lambda sc=sc, tr=tr, rec=rec: vlib.write_replay(PROP, sc["id"], sc, tr, rec))
